@@ -178,7 +178,8 @@ struct VData : Profile {
     };
     const std::string path = "/sim/vd.hdf";
 
-    static std::string fname(int j) { return strf("fld%d", j); }
+    // every field name is a proper prefix of the next one: a lookup that compares a prefix only picks the wrong field
+    static std::string fname(int j) { return "f" + std::string("wxyz").substr(0, (size_t)j); }
     static std::string allfields(const MTable &t)
     {
         std::string s;
